@@ -20,7 +20,13 @@ pub struct Step {
     pub upload_len: usize,
     /// abort the upload with an ERROR after this many blocks
     pub abort_after: Option<usize>,
+    /// when the request must be refused anyway: additionally carry an option value the server cannot honour (index into BAD_OPTS)
+    #[serde(default)]
+    pub bad_opt: Option<u8>,
 }
+
+/// option values the server never acknowledges; a request that must be refused is refused with or without them
+const BAD_OPTS: [(&str, &str); 6] = [("blksize", "7"), ("timeout", "0"), ("windowsize", "0"), ("windowsize", "65536"), ("blksize", "65465"), ("timeout", "256")];
 
 #[derive(Clone, Debug, Serialize, Deserialize)]
 pub struct Case {
@@ -110,10 +116,18 @@ fn run_case(dir: &Path, c: &Case) -> Result<Vec<&'static str>, (String, String)>
         let st = &Step { write: st_write, ..st.clone() };
         let key = norm(target);
         let cl = Client::new();
-        let what = format!("step {} {} {:?} opts {:?}", i, if st.write { "WRQ" } else { "RRQ" }, target, st.opts);
-        let start = wclient::start(&cl, srv.addr, st.write, target, &st.opts, Duration::from_secs(3));
         let (model, real_dir) = if st.write { (if c.distinct { &mut model_recv } else { &mut model_send }, &recv) } else { (&mut model_send, &send) };
         let exists = model.contains_key(&key);
+        let must_refuse = if st.write { c.read_only || (exists && !c.overwrite) } else { !exists };
+        let mut req_opts = st.opts.clone();
+        if let (true, Some(b)) = (must_refuse, st.bad_opt) {
+            let (n, v) = BAD_OPTS[b as usize % BAD_OPTS.len()];
+            req_opts.retain(|(on, _)| on != n);
+            req_opts.push((n.to_string(), v.to_string()));
+            classes.push("refusal-with-unhonourable-option");
+        }
+        let what = format!("step {} {} {:?} opts {:?}", i, if st.write { "WRQ" } else { "RRQ" }, target, req_opts);
+        let start = wclient::start(&cl, srv.addr, st.write, target, &req_opts, Duration::from_secs(3));
         // ---- expected class
         let expect_refusal: Option<u16> = if st.write {
             if c.read_only {
@@ -276,11 +290,11 @@ fn opts() -> BoxedStrategy<Vec<(String, String)>> {
 }
 
 pub fn strategy() -> BoxedStrategy<Case> {
-    let step = (any::<bool>(), 0u8..11, opts(), prop::sample::select(vec![0usize, 1, 40, 100, 512, 600, 2000, 3500]), prop_oneof![9 => Just(None), 1 => (0usize..3).prop_map(Some)]).prop_map(|(write, target, opts, upload_len, abort_after)| {
+    let step = (any::<bool>(), 0u8..11, opts(), prop::sample::select(vec![0usize, 1, 40, 100, 512, 600, 2000, 3500]), prop_oneof![9 => Just(None), 1 => (0usize..3).prop_map(Some)], prop_oneof![3 => Just(None), 1 => (0u8..6).prop_map(Some)]).prop_map(|(write, target, opts, upload_len, abort_after, bad_opt)| {
         // small blksize with a long upload would need hundreds of round trips
         let upload_len = if opts.iter().any(|(n, v)| n == "blksize" && v == "8") { upload_len.min(100) } else { upload_len };
         let opts: Vec<(String, String)> = opts.into_iter().map(|(n, v)| if v == "LEN" { (n, if write { upload_len.to_string() } else { "0".to_string() }) } else { (n, v) }).collect();
-        Step { write, target, opts, upload_len, abort_after }
+        Step { write, target, opts, upload_len, abort_after, bad_opt }
     });
     (prop_oneof![3 => Just(false), 1 => Just(true)], any::<bool>(), any::<bool>(), any::<bool>(), any::<bool>(), proptest::collection::vec(step, 1..12), any::<u64>())
         .prop_map(|(read_only, overwrite, keep, single, distinct, steps, seed)| Case {
@@ -302,16 +316,19 @@ fn decision_table() -> Vec<Case> {
         let (read_only, overwrite, keep, single, distinct) = (bits & 1 != 0, bits & 2 != 0, bits & 4 != 0, bits & 8 != 0, bits & 16 != 0);
         for write in [false, true] {
             for target in 0u8..11 {
-                out.push(Case {
-                    read_only,
-                    overwrite,
-                    keep,
-                    single,
-                    distinct,
-                    // the request under test, then a read of a served file (the server still works and serves the right bytes)
-                    steps: vec![Step { write, target, opts: vec![], upload_len: 700, abort_after: None }, Step { write: false, target: 0, opts: vec![], upload_len: 0, abort_after: None }],
-                    seed: 6 + bits as u64 * 100 + target as u64,
-                });
+                // plain, and (where the request must be refused) with an option value the server cannot honour
+                for bad_opt in [None, Some((bits + target) % 6)] {
+                    out.push(Case {
+                        read_only,
+                        overwrite,
+                        keep,
+                        single,
+                        distinct,
+                        // the request under test, then a read of a served file (the server still works and serves the right bytes)
+                        steps: vec![Step { write, target, opts: vec![], upload_len: 700, abort_after: None, bad_opt }, Step { write: false, target: 0, opts: vec![], upload_len: 0, abort_after: None, bad_opt: None }],
+                        seed: 6 + bits as u64 * 100 + target as u64,
+                    });
+                }
             }
         }
     }
@@ -319,7 +336,7 @@ fn decision_table() -> Vec<Case> {
 }
 
 pub fn run(ctx: &Ctx) {
-    ctx.set_rule("exhaustive: the whole decision table once (32 configurations x RRQ/WRQ x 11 targets, one request per fresh server); model-based random: per case a fresh real tftpd with a generated configuration {read-only, overwrite, keep-on-error, single/multi port, shared/distinct directories} and a history of 1-11 requests, each RRQ or WRQ of a target in {existing short, existing long, missing, in subdirectory existing/missing, existing zero-length, leading-slash spelling} with one of 5 option sets; uploads of 0..3500 bytes are completed (10% are aborted by a client ERROR). A reference decision table predicts refusal (ERROR 2 read-only / ERROR 6 exists without overwrite / ERROR 1 not found - from the listening port, followed by nothing) or acceptance; a model filesystem is updated and compared with the real send and receive trees (every file, every byte) after every step, so a refused request that changes anything, an overwrite that leaves old bytes behind, or a wrong download is caught at the step where it happens. Non-trivial = the history contains a refusal and a completed transfer; distinct = distinct cases.");
+    ctx.set_rule("exhaustive: the whole decision table once (32 configurations x RRQ/WRQ x 11 targets x {plain, with an unhonourable option value}, one request per fresh server); model-based random: per case a fresh real tftpd with a generated configuration {read-only, overwrite, keep-on-error, single/multi port, shared/distinct directories} and a history of 1-11 requests, each RRQ or WRQ of a target in {existing short, existing long, missing, in subdirectory existing/missing, existing zero-length, leading-slash spelling} with one of 7 option sets, and - where the request must be refused - in a quarter of the steps additionally an option value the server cannot honour (blksize 7/65465, timeout 0/256, windowsize 0/65536: the refusal must come all the same); uploads of 0..3500 bytes are completed (10% are aborted by a client ERROR). A reference decision table predicts refusal (ERROR 2 read-only / ERROR 6 exists without overwrite / ERROR 1 not found - from the listening port, followed by nothing) or acceptance; a model filesystem is updated and compared with the real send and receive trees (every file, every byte) after every step, so a refused request that changes anything, an overwrite that leaves old bytes behind, or a wrong download is caught at the step where it happens. Non-trivial = the history contains a refusal and a completed transfer; distinct = distinct cases.");
     let dirs = DirPool::new(ctx, "c06");
     let table = decision_table();
     enumerate(ctx, "exh-decision-table", &table, true, |c, o| dirs.with(|d| judge(d, c, o)));
